@@ -89,6 +89,9 @@ type scen struct {
 	nstream int
 	// threeTracks: every published stream has audio and two video tracks
 	threeTracks bool
+	// midPublish runs when a published stream is connected, before its first packets: inside
+	// the server's 200 ms push delay
+	midPublish func()
 }
 
 func (sc *scen) note(s string) {
@@ -483,6 +486,9 @@ func (sc *scen) publish(c *cl, r *rand.Rand, replace string) {
 	}
 	sc.streams[id] = st
 	st.live = true
+	if sc.midPublish != nil {
+		sc.midPublish()
+	}
 	// first packets track by track, so that the server learns the tracks in this order
 	for _, ts := range tracks {
 		t := up.Track(ts.ID)
@@ -952,6 +958,9 @@ func runChain(run *vk.Run, srv *vsrv.Server, batch uint64, idx int) {
 			break
 		}
 		hops := 1 + r.IntN(2)
+		if round%2 == 1 {
+			hops = 0 // a plain replacement of a stream the subscribers hold
+		}
 		mid := cur
 		for h := 0; h < hops && mid != "" && !sc.bad; h++ {
 			mid = sc.publishBrief(pub, r, mid, r.IntN(2) == 0)
@@ -962,7 +971,24 @@ func runChain(run *vk.Run, srv *vsrv.Server, batch uint64, idx int) {
 		if mid == "" || sc.bad {
 			break
 		}
+		if round%2 == 1 {
+			// one subscriber repeats its request while the replacing stream has not been
+			// announced yet: the publisher pushes to it at once; the others must still learn
+			// of the replacement from the delayed announcement
+			s := sc.clients[1]
+			sc.midPublish = func() {
+				msg := map[string]any{}
+				for k, v := range s.request {
+					msg[k] = v
+				}
+				sc.note(fmt.Sprintf("%s request %v (inside the push delay of the replacing stream)", s.name, s.request))
+				s.c.Send(vclient.Msg{"type": "request", "request": msg})
+				s.pushAsked = true
+				run.Count("requests_inside_the_push_delay_of_a_replacement", 1)
+			}
+		}
 		sc.publish(pub, r, mid)
+		sc.midPublish = nil
 		run.Count("streams_replaced_twice_within_push_delay", 1)
 		run.Eval(1)
 		sc.check()
